@@ -247,6 +247,7 @@ func lawsFS14(s sink, c case14, d *docCtx14) (string, bool) {
 			Detail: "fieldspec.Filter panics: " + msg, Replay: c})
 		return cls, false
 	}
+	checkWellFormed14(s, c, cls, doc)
 	matches := fsMatchesGVK14(c.FS, orig)
 	if !matches {
 		// fs_apply_gvk_mismatch: the object is returned untouched and SetValue is never invoked
